@@ -498,7 +498,7 @@ package geom
 //@   prop C13
 //@   mode real
 //@   ensures [sound] result ==> (exists a int, b int :: 0 <= a && a < len(paths) && 0 <= b && b + 1 < len(paths[a]) && segHit(segment(segStart, segEnd), paths[a], b))
-//@   using mention(segHit(segment(segStart, segEnd), p, i))
+//@   using mention(segHit(segment(segStart, segEnd), p, #2))
 //@   ensures [complete] (exists a int, b int :: 0 <= a && a < len(paths) && 0 <= b && b + 1 < len(paths[a]) && segHit(segment(segStart, segEnd), paths[a], b)) ==> result
 //@   ensures [complete_first] len(paths) >= 1 && !result ==> (forall b int :: 0 <= b && b + 1 < len(paths[0]) ==> !segHit(segment(segStart, segEnd), paths[0], b))
 //@   modifies nothing
@@ -506,9 +506,9 @@ package geom
 //@     invariant [outer] 0 <= #1 && #1 <= len(paths)
 //@     invariant [none_so_far] forall a int, b int :: 0 <= a && a < #1 && 0 <= b && b + 1 < len(paths[a]) ==> !segHit(segment(segStart, segEnd), paths[a], b)
 //@   loop 2 `for i := 0; i < len(p)-1; i++`
-//@     invariant [inner] 0 <= i
-//@     invariant [none_in_path] forall b int :: 0 <= b && b < i && b + 1 < len(p) ==> !segHit(segment(segStart, segEnd), p, b)
-//@     decreases len(p) - i
+//@     invariant [inner] 0 <= #2
+//@     invariant [none_in_path] forall b int :: 0 <= b && b < #2 && b + 1 < len(p) ==> !segHit(segment(segStart, segEnd), p, b)
+//@     decreases len(p) - #2
 
 //@ spec dotP(u Point, v Point) float64 = u.X*v.X + u.Y*v.Y
 //@ spec subP(a Point, b Point) Point = Point(a.X - b.X, a.Y - b.Y)
